@@ -43,6 +43,32 @@ CREDS = ["none",
          "c-wrongvalue", "c-badsig", "c-garbage", "c-othername", "c-valid",
          "h-wrong+q-valid", "c-badsig+h-valid", "h-empty+q-valid"]
 MARK = "c46-secret"
+# named passwords of the sequence cases.  Variants: NAME+e (one non-ASCII character appended), NAME-1 (last character dropped),
+# NAME~a (what .encode("ascii","ignore") would leave of it); tokK = the K-th generated token (symbolic in the model lines)
+PW = {"A": "pw-A", "B": "pw-B", "N": "пароль", "M": "pässwörd", "U": "日本語パスワード", "W": "   ", "L": "x" * 3000, "S": "pw with space"}
+PLAIN_CFGS = ["A", "B", "N", "M", "U", "W", "L", "S"]
+
+
+def pw_text(name, tok=lambda k: k):
+    """text of a named password; `tok` maps a token name (tokK) to its text"""
+    base, var = name, ""
+    for v in ("+e", "-1", "~a"):
+        if name.endswith(v): base, var = name[:-2], v
+    t = PW[base] if base in PW else tok(base)
+    if var == "+e": return t + "é"
+    if var == "-1": return t[:-1]
+    if var == "~a": return t.encode("ascii", "ignore").decode()
+    return t
+
+
+def as_header(text):
+    """how a UTF-8 encoded header value reaches tornado's handler: decoded as latin-1"""
+    return text.encode("utf-8").decode("latin-1")
+
+
+def header_ok(text):
+    """can the text travel as `Authorization: Bearer <text>` at all (no leading/trailing whitespace, no control characters)?"""
+    return text == text.strip() and text != "" and not any(ord(c) < 32 or ord(c) == 127 for c in text)
 HOOKS = ["initialize", "prepare", "set_default_headers", "get_current_user", "check_xsrf_cookie", "data_received",
          "on_connection_close", "_execute", "xsrf_token", "get_login_url", "compute_etag", "check_etag_header"]
 GROUPS = {"flow_id": "c46f1", "message": "request", "content_view": "auto", "cmd": "c.nonexistent"}
@@ -70,7 +96,8 @@ class Check(PropertyCheck):
                   "text, any argon2 answer), issued_cookie_provenance (induction over the history: every session cookie was issued to "
                   "a request carrying the then-valid password), hist_no_credential_no_handler, rotation_revokes_old_password, "
                   "serveC_eq_serve (the raw model refines the abstract one). Both models are tied to the real Application by the "
-                  "in-process sweep (routes x methods x credential forms x Sec-Fetch-Site x XSRF) and by rotation sequences.")
+                  "in-process sweep (routes x methods x credential forms x Sec-Fetch-Site x XSRF) and by rotation sequences, including text-vs-bytes boundary "
+                  "sequences (every configuration kind x credential = configured / +1 non-ASCII char / -1 char / ASCII residue / none).")
     level_note = ("argon2 (verify / extract_parameters) is a parameter of the model (answers supplied per request); tornado's XSRF "
                   "comparison, URL routing and signed-cookie verification are abstracted (xsrfOk, the route row, 'a presented cookie "
                   "verifies iff this Application issued it') and exercised for real in the sweep. A session cookie issued before a "
@@ -78,7 +105,13 @@ class Check(PropertyCheck):
                   "the statement's 'valid session cookie' does not demand revocation, so the oracle neither demands nor forbids it. "
                   "Static asset rules are outside the authenticated table by design (see module docstring). The cross-site refusal "
                   "raises tornado.httpclient.HTTPError, which tornado turns into status 500, not 403 - a refusal, outcome "
-                  "`cross-site`. 'GET/HEAD/OPTIONS handlers do not change state' is checked by the sweep only.")
+                  "`cross-site`. 'GET/HEAD/OPTIONS handlers do not change state' is checked by the sweep only. Passwords and tokens are "
+                  "byte strings (UTF-8) in the model, as in the code since fix dfe06f3f1; the sweep covers non-ASCII, mixed, whitespace-"
+                  "only, very long and one-character-off credentials over the token parameter and the Bearer header. LENIENT BRANCHES "
+                  "of the oracle (status of a refusal other than 403, all with 'handler not run, no state change, no flow data' still "
+                  "demanded): 405 where the route does not implement the method, 400 for a token argument that is not UTF-8, 500 for "
+                  "the cross-site refusal; static asset rows: only no-state-change/no-flow-data; the WebSocket GET may add and remove "
+                  "its own connection entry; a cookie issued before a password rotation: neither demanded nor forbidden.")
     technique = "Lean 4 proof (decide +kernel over generated route table + case analysis) + exhaustive in-process request sweep"
     rule = ("core: every route x 8 methods x {no credential, valid bearer} x {Sec-Fetch-Site absent, cross-site} x {no XSRF, "
             "matching XSRF}; then (quick: random sample, thorough: full product) of route x method x 19 credential forms x 6 "
@@ -258,6 +291,7 @@ class Check(PropertyCheck):
                             for x in XSRF:
                                 yield {"route": i, "method": m, "cred": cred, "sfs": sfs, "xsrf": x, "ws": 1}
         for c in self._seq_core(): yield c
+        for c in self._seq_boundary(): yield c
         while True:
             if rng.chance(0.15):
                 yield self._gen_seq(rng)
@@ -266,6 +300,23 @@ class Check(PropertyCheck):
                        "xsrf": rng.pick(XSRF), "ws": int(rng.chance(0.7))}
 
     CFGS = [["tok", None], ["plain", "A"], ["plain", "B"], ["arg", "A"], ["arg", "B"]]
+    ALL_CFGS = CFGS + [["plain", x] for x in PLAIN_CFGS if x not in ("A", "B")] + [["arg", "N"], ["arg", "M"]]
+
+    def _seq_boundary(self):
+        """text-vs-bytes boundaries of the password comparison: every configuration (token, plaintext ASCII / non-ASCII /
+        mixed / whitespace-only / very long, argon2 of ASCII and non-ASCII) x presented credential = none, the configured one,
+        configured + one non-ASCII character, configured minus its last character, its ASCII-only residue - over the token
+        parameter and (where the text can travel in a header) the Bearer header, on a read, a state-changing and the
+        WebSocket route"""
+        for cfg in self.ALL_CFGS:
+            base = "tok1" if cfg[0] == "tok" else cfg[1]
+            for var in ("", "+e", "-1", "~a"):
+                nm = base + var
+                for chan in ("qt:", "hb:"):
+                    if chan == "hb:" and not header_ok(pw_text(nm)): continue
+                    yield {"kind": "seq", "steps": [{"op": "set", "cfg": cfg}, self._rq("Flows", "GET", "none"),
+                                                    self._rq("Flows", "GET", chan + nm), self._rq("ClearAll", "POST", chan + nm),
+                                                    self._rq("ClientConnection", "GET", chan + nm)]}
 
     def _idx(self, name):
         for i, r in enumerate(self._routes()):
@@ -292,18 +343,21 @@ class Check(PropertyCheck):
 
     def _gen_seq(self, rng):
         steps, nreq, ntok = [], 0, 0
-        names = ["A", "B", "tok0"]
+        names = list(PW) + ["tok0"]
         target = rng.randint(2, 4)
         while nreq < target:
             if rng.chance(0.45) or not steps:
-                cfg = rng.pick(self.CFGS)
+                cfg = rng.pick(self.ALL_CFGS)
                 if cfg[0] == "tok": ntok += 1; names.append("tok%d" % ntok)
                 steps.append({"op": "set", "cfg": cfg, "salt": rng.randint(0, 1)})
             else:
                 prior = [i for i, st in enumerate(steps) if st["op"] == "req"]
-                cred = rng.weighted([(5, rng.pick(["hb:", "qt:"]) + rng.pick(names)), (1, "none"),
+                nm = rng.pick(names)
+                if rng.chance(0.4): nm += rng.pick(["+e", "-1", "~a"])
+                chan_ = "hb:" if (rng.chance(0.5) and header_ok(pw_text(nm))) else "qt:"
+                cred = rng.weighted([(5, chan_ + nm), (1, "none"),
                                      (2, ("ck:%d" % rng.pick(prior)) if prior else "none"),
-                                     (1, "hb:" + rng.pick(names) + "+qt:" + rng.pick(names))])
+                                     (1, "hb:" + rng.pick([n for n in names if header_ok(pw_text(n))]) + "&qt:" + rng.pick(names))])
                 h, m = rng.pick([("Flows", "GET"), ("ClearAll", "POST"), ("IndexHandler", "GET"), ("ClientConnection", "GET"),
                                  ("Options", "PUT"), ("FlowHandler", "DELETE"), ("Events", "GET")])
                 steps.append(self._rq(h, m, cred, xsrf=rng.pick(["ok-header", "ok-header", "none"]),
@@ -338,7 +392,7 @@ class Check(PropertyCheck):
         query = []
         cookies = []
         name = w.auth_cookie_name()
-        for part in case["cred"].split("+"):
+        for part in self._parts(case["cred"]):
             if part == "h-wrong": headers.append(("Authorization", "Bearer " + pw[:-1] + ("0" if pw[-1] != "0" else "1")))
             elif part == "h-basic": headers.append(("Authorization", "Basic " + pw))
             elif part == "h-lower": headers.append(("Authorization", "bearer " + pw))
@@ -355,8 +409,10 @@ class Check(PropertyCheck):
             elif part == "c-garbage": cookies.append(name + "=y")
             elif part == "c-othername": cookies.append(name + "=" + w.signed_cookie("other", "y"))
             elif part == "c-valid": cookies.append(name + "=" + w.signed_cookie(name, "y"))
-            elif part.startswith("hb:"): headers.append(("Authorization", "Bearer " + resolve["pw"][part[3:]]))
-            elif part.startswith("qt:"): query.append("token=" + resolve["pw"][part[3:]])
+            elif part.startswith("hb:"): headers.append(("Authorization", "Bearer " + as_header(resolve["pw"](part[3:]))))
+            elif part.startswith("qt:"):
+                import urllib.parse
+                query.append("token=" + urllib.parse.quote(resolve["pw"](part[3:]), safe=""))
             elif part.startswith("ck:"):
                 ck = resolve["ck"].get(int(part[3:]))
                 if ck: cookies.append(ck)
@@ -401,7 +457,8 @@ class Check(PropertyCheck):
             return self._one(w, case)[0]
         # ---- a sequence of option changes and requests against the one live Application / WebAuth
         auth = w.master.addons.get("webauth")
-        pw = {"A": "pw-A", "B": "pw-B", "tok0": auth._password}
+        toks = {"tok0": auth._password}
+        pw = lambda name: pw_text(name, lambda k: toks[k])
         ntok = 0
         cookies, out = {}, []
         try:
@@ -411,8 +468,8 @@ class Check(PropertyCheck):
                     if kind == "tok":
                         w.master.options.update(web_password=self._hash("B", 9))     # make sure the option really changes
                         w.master.options.update(web_password="")
-                        ntok += 1; pw["tok%d" % ntok] = auth._password
-                    elif kind == "plain": w.master.options.update(web_password=pw[x])
+                        ntok += 1; toks["tok%d" % ntok] = auth._password
+                    elif kind == "plain": w.master.options.update(web_password=pw(x))
                     else: w.master.options.update(web_password=self._hash(x, st.get("salt", 0)))
                     w.pump(); w.pump()                  # the plaintext-password warning reaches the event store via the loop
                     w.base = self._snap(w)              # option changes by the operator are not the request's doing
@@ -436,8 +493,13 @@ class Check(PropertyCheck):
         import argon2
         key = (x, salt)
         if key not in Check._hashes:
-            Check._hashes[key] = argon2.PasswordHasher(time_cost=1, memory_cost=8, parallelism=1).hash({"A": "pw-A", "B": "pw-B"}[x])
+            Check._hashes[key] = argon2.PasswordHasher(time_cost=1, memory_cost=8, parallelism=1).hash(PW[x])
         return Check._hashes[key]
+
+    @staticmethod
+    def _parts(cred):
+        """credential parts of a step: single-request cases join with '+', sequence steps with '&' (names may end in +e)"""
+        return cred.split("&") if ("&" in cred or ":" in cred) else cred.split("+")
 
     def _seq_truth(self, case):
         """per request step: (cookieValid, bearer, token) by the configuration IN FORCE AT THAT TIME, from the case alone.
@@ -456,13 +518,15 @@ class Check(PropertyCheck):
                 if kind == "tok": ntok += 1; cfg = ("tok", ntok)
                 else: cfg = (kind, x)
                 continue
-            def valid(name):
-                if cfg[0] == "tok": return name == "tok%d" % cfg[1]
-                return name == cfg[1]
+            cfgtext = pw_text("tok%d" % cfg[1]) if cfg[0] == "tok" else PW[cfg[1]]      # token texts are symbolic ("tok3")
             cookie, bearer, token = 0, "absent", "absent"
-            for part in st["cred"].split("+"):
-                if part.startswith("hb:"): bearer = "valid" if valid(part[3:]) else "invalid"
-                elif part.startswith("qt:"): token = "valid" if valid(part[3:]) else "invalid"
+            for part in self._parts(st["cred"]):
+                if part.startswith("hb:"):
+                    t = as_header(pw_text(part[3:]))                 # what the wrapper receives
+                    bearer = "absent" if t == "" else ("valid" if t == cfgtext else "invalid")
+                elif part.startswith("qt:"):
+                    t = pw_text(part[3:]).strip()                    # get_argument strips
+                    token = "absent" if t == "" else ("valid" if t == cfgtext else "invalid")
                 elif part.startswith("ck:"): cookie = int(bool(issued.get(int(part[3:]))))
             r = routes[st["route"]]
             safe = st["method"] in ("GET", "HEAD", "OPTIONS")
@@ -532,7 +596,7 @@ class Check(PropertyCheck):
 
     def _hreq(self, st, i, pwtext, ver):
         auth, tok, ck = "none", "absent", "-"
-        for part in st["cred"].split("+"):
+        for part in self._parts(st["cred"]):
             if part == "h-wrong": auth = self._hx("Bearer WRONG")
             elif part == "h-basic": auth = self._hx("Basic tok0")
             elif part == "h-lower": auth = self._hx("bearer tok0")
@@ -544,8 +608,8 @@ class Check(PropertyCheck):
             elif part == "q-empty": tok = "t-"
             elif part == "q-valid": tok = "t" + self._hx("tok0")
             elif part == "c-valid": ck = "99"
-            elif part.startswith("hb:"): auth = self._hx("Bearer " + pwtext(part[3:]))
-            elif part.startswith("qt:"): tok = "t" + self._hx(pwtext(part[3:]))
+            elif part.startswith("hb:"): auth = self._hx("Bearer " + as_header(pwtext(part[3:])))
+            elif part.startswith("qt:"): tok = "t" + self._hx(pwtext(part[3:]).strip())
             elif part.startswith("ck:"): ck = part[3:]
         m = st["method"] if st["method"] in METHODS else "other"
         sfs = {None: "absent", "same-origin": "same-origin", "none": "none"}.get(st["sfs"], "other")
@@ -553,7 +617,7 @@ class Check(PropertyCheck):
         return f"hreq {st['route']} {m} {ck} {auth} {tok} {sfs} {x} {i} {ver}"
 
     def _hist_lines(self, case):
-        pwtext = lambda n: {"A": "pw-A", "B": "pw-B"}.get(n, n)
+        pwtext = pw_text
         if case.get("kind") != "seq":
             return ["hreset %s %s" % (self._hx("tok0"), "99" if "c-valid" in case["cred"].split("+") else "-"),
                     self._hreq(case, 0, pwtext, "-")]
@@ -564,9 +628,9 @@ class Check(PropertyCheck):
                 if kind == "tok":
                     ntok += 1; lines.append("hset - %s 1" % self._hx("tok%d" % ntok)); ver = "-"
                 elif kind == "plain":
-                    lines.append("hset %s %s 1" % (self._hx(pwtext(x)), self._hx("unused"))); ver = "-"
+                    lines.append("hset %s %s 1" % (self._hx(PW[x]), self._hx("unused"))); ver = "-"
                 else:
-                    lines.append("hset %s %s 1" % (self._hx("$%s%d" % (x, st.get("salt", 0))), self._hx("unused"))); ver = self._hx(pwtext(x))
+                    lines.append("hset %s %s 1" % (self._hx("$%s%d" % (x, st.get("salt", 0))), self._hx("unused"))); ver = self._hx(PW[x])
             else:
                 lines.append(self._hreq(st, i, pwtext, ver))
         return lines
